@@ -112,3 +112,31 @@ func VerifTreeWalk(t *Tree, fn func(pageID uint64, leaf bool, kv []uint64)) {
 		fn(n.pageID(), n.isLeaf(), n[:2*N])
 	})
 }
+
+// VerifTreeBuildTight builds an independent in-memory Tree holding a recorded state (as read with
+// VerifTreeMetaOf / VerifTreeUsed) on a NEW calloc-backed Buffer that contains exactly pages
+// 0..nextPage-1 plus slackPages zeroed spare pages and has no spare capacity behind them. The
+// (slackPages+1)-th allocation of a new page therefore makes Buffer.Grow reallocate (the memory
+// moves) in the middle of whatever tree operation performs it. Pure state surgery: private fields
+// are set, bytes are copied, no tree logic. Returns nil if the recorded bytes are not exactly
+// pages 1..nextPage-1.
+func VerifTreeBuildTight(m VerifTreeMeta, used []byte, slackPages int) *Tree {
+	if m.NextPage < 1 || len(used) != (int(m.NextPage)-1)*pageSize || slackPages < 0 {
+		return nil
+	}
+	const tag = "verif-tight"
+	sz := 8 + pageSize + len(used) + slackPages*pageSize
+	b := &Buffer{buf: Calloc(sz, tag), bufType: UseCalloc, curSz: sz, offset: uint64(sz), padding: 8, tag: tag}
+	t := &Tree{buffer: b, nextPage: m.NextPage, freePage: m.FreePage, stats: m.Stats}
+	t.data = b.Bytes()
+	copy(t.data[pageSize:], used)
+	return t
+}
+
+// VerifTreeBufAddr identifies the current backing array (to observe that a Grow moved the memory).
+func VerifTreeBufAddr(t *Tree) uintptr {
+	if len(t.buffer.buf) == 0 {
+		return 0
+	}
+	return reflect.ValueOf(t.buffer.buf).Pointer()
+}
